@@ -48,6 +48,9 @@ pub enum Receiver {
     MidPrefixChain,
     PagingLocked,
     EiPending,
+    /// a fresh machine stopped by a breakpoint after this many instructions of an idle loop:
+    /// somewhere inside a frame (x 12 T-states)
+    MidFrame(u16),
 }
 
 #[derive(Clone, Debug, Serialize, Deserialize)]
@@ -201,6 +204,13 @@ fn prepare_receiver(c: &Case, same: Option<Emu>) -> Result<Emu, String> {
                     if machine == Machine::K128 {
                         e.verif_set_paging(0x20 | 0x03);
                     }
+                }
+                Receiver::MidFrame(n) => {
+                    e.verif_ram_page_mut(page_no)[0..3].copy_from_slice(&[0xF3, 0x18, 0xFE]);
+                    mach::set_regs(&mut e, &RegFile { pc: 0x8000, sp: 0xBF00, ..Default::default() });
+                    e.debug_interface().unwrap().mode = crate::host::BpMode::AfterCalls(n as u64 + 1);
+                    let _ = e.emulate_frames(crate::host::LONG);
+                    e.debug_interface().unwrap().mode = crate::host::BpMode::Never;
                 }
                 Receiver::EiPending => {
                     e.verif_ram_page_mut(page_no)[0] = 0xFB;
@@ -491,6 +501,7 @@ pub fn case_strategy() -> impl Strategy<Value = Case> {
             Just(Receiver::MidPrefixChain),
             Just(Receiver::PagingLocked),
             Just(Receiver::EiPending),
+            (0u16..17000).prop_map(Receiver::MidFrame),
         ],
         0x8000u16..0xBE00,
         // SP around the 16 KiB page boundaries (the 48K format keeps PC in the two bytes below SP)
@@ -528,7 +539,7 @@ pub fn replay(run: &mut Run, phase: &str, case: &serde_json::Value) -> Result<()
 }
 
 pub const LEVEL: &str = "exploration";
-pub const RULE: &str = "case = machine x arbitrary register file (alternates, I, R, IM, IFF1/IFF2) x border x 128K latch (all 256 values incl. lock, bank 5/2 paged at 0xC000) x RAM contents (seeded pattern + sparse edits in every bank) x SP anywhere (a quarter of the cases at a 16 KiB page boundary +-2, so that the two bytes below SP lie in different pages) x receiver in {same emulator after 1..4 frames of a scrambling program, fresh, halted, stopped mid DD-chain, paging locked + other border, EI pending}. A seventh of the saved machines are halted; in a fifth of the cases the host's recorder first refuses data after a generated number of bytes (the failed save must leave the machine as it was). Checked: (a) registers, every RAM bank, latch and border read through hooks are identical before and after save_snapshot, and the produced file parsed by the harness' own SNA parser describes that state; (b) after load_snapshot of the produced file every carried item, the latch with its lock, every RAM byte and all 65536 CPU-visible bytes equal the saved state; (c) the next 10 instructions, with the frame interrupt arriving on the way (or, in a third of the cases, already active when the loaded machine starts), match the reference machine continuing from the saved state; (d) the restored machine is then saved again and that file loaded into a fresh emulator must give the state it had (second generation). non-trivial = alternate set differs from main set, >= 2 RAM edits, receiver not fresh; distinct = hash of the case";
+pub const RULE: &str = "case = machine x arbitrary register file (alternates, I, R, IM, IFF1/IFF2) x border x 128K latch (all 256 values incl. lock, bank 5/2 paged at 0xC000) x RAM contents (seeded pattern + sparse edits in every bank) x SP anywhere (a quarter of the cases at a 16 KiB page boundary +-2, so that the two bytes below SP lie in different pages) x receiver in {same emulator after 1..4 frames of a scrambling program, fresh, halted, stopped mid DD-chain, paging locked + other border, EI pending, stopped by a breakpoint somewhere inside a frame}. A seventh of the saved machines are halted; in a fifth of the cases the host's recorder first refuses data after a generated number of bytes (the failed save must leave the machine as it was). Checked: (a) registers, every RAM bank, latch and border read through hooks are identical before and after save_snapshot, and the produced file parsed by the harness' own SNA parser describes that state; (b) after load_snapshot of the produced file every carried item, the latch with its lock, every RAM byte and all 65536 CPU-visible bytes equal the saved state; (c) the next 10 instructions, with the frame interrupt arriving on the way (or, in a third of the cases, already active when the loaded machine starts), match the reference machine continuing from the saved state; (d) the restored machine is then saved again and that file loaded into a fresh emulator must give the state it had (second generation). non-trivial = alternate set differs from main set, >= 2 RAM edits, receiver not fresh; distinct = hash of the case";
 pub const ASSUMPTIONS: &[&str] = &[
     "48K proviso of the property (two bytes below SP are RAM) is a generator-side skip, counted; on the 48K the two bytes below SP may hold PC after a load (format)",
     "IFF1 is not carried by the format: only IFF2 is compared",
